@@ -244,6 +244,9 @@ func ghostSort(goTyp string) Sort {
 	if strings.HasPrefix(goTyp, "seq[") {
 		return arrSort(SInt, SInt)
 	}
+	if goTyp == "seqmap" {
+		return arrSort(SInt, arrSort(SInt, SInt))
+	}
 	panic("unknown ghost type " + goTyp)
 }
 
@@ -265,8 +268,17 @@ func ghostType(goTyp string) types.Type {
 	if strings.HasPrefix(goTyp, "seq[") {
 		return &seqType{}
 	}
+	if goTyp == "seqmap" {
+		return &seqMapType{}
+	}
 	panic("unknown ghost type " + goTyp)
 }
+
+// seqMapType marks ghost maps from references to integer sequences (Array Int (Array Int Int)).
+type seqMapType struct{}
+
+func (s *seqMapType) Underlying() types.Type { return s }
+func (s *seqMapType) String() string         { return "seqmap" }
 
 // seqType marks spec-level integer-indexed ghost arrays (Array Int Int).
 type seqType struct{}
@@ -419,6 +431,10 @@ func (env *SpecEnv) evalIndex(x *EIndex) (Val, types.Type) {
 		if _, ok := t.(*seqType); ok {
 			k := env.evalInt(x.I)
 			return intv(sSel(c.T, k)), tInt
+		}
+		if _, ok := t.(*seqMapType); ok {
+			k := env.evalInt(x.I)
+			return Sc{sSel(c.T, k), arrSort(SInt, SInt)}, &seqType{}
 		}
 	}
 	sfail("indexing unsupported value in %s (type %v)", x, t)
@@ -847,8 +863,8 @@ func (env *SpecEnv) evalCall(c *ECall) (Val, types.Type) {
 	case "seqset":
 		s, t := env.eval(c.Args[0])
 		k := env.evalInt(c.Args[1])
-		v := env.evalInt(c.Args[2])
-		return Sc{sStore(asSc(s).T, k, v), asSc(s).S}, t
+		vv, _ := env.eval(c.Args[2])
+		return Sc{sStore(asSc(s).T, k, asSc(vv).T), asSc(s).S}, t
 	case "toreal":
 		return Sc{"(to_real " + env.evalInt(c.Args[0]) + ")", SReal}, types.Typ[types.Float64]
 	case "toint":
